@@ -105,7 +105,7 @@ class Acc:
 
     def fail(self, sig, case, detail, nontrivial_key=None):
         self.n += 1
-        self.outcomes['VIOLATION'] += 1
+        self.outcomes['failed-oracle'] += 1
         if len(self.fails) < 50:
             self.fails.append({'sig': sig, 'case': case, 'detail': str(detail)[:2000]})
         else:
@@ -170,7 +170,7 @@ def _worker_call(item):
     except Exception as e:
         # An exception that escapes a check body: on the unchanged tree this never happens (verified),
         # so on a modified tree it is attributed to the modification and reported as a violation.
-        return idx, {'n': 1, 'nontrivial': 0, 'outcomes': {'VIOLATION': 1}, 'samples': [], 'extra': {},
+        return idx, {'n': 1, 'nontrivial': 0, 'outcomes': {'failed-oracle': 1}, 'samples': [], 'extra': {},
                      'fails': [{'sig': 'uncaught:' + type(e).__name__, 'case': case,
                                 'detail': traceback.format_exc()[-3000:]}]}
 
